@@ -239,6 +239,34 @@ def r3_label_provenance(ctx):
                 ctx.ok(f, 'app without a stored signature: the whole '
                        'sequence is recorded and no evolution SQL is '
                        'generated on that path', d.node.ast)
+            # "no stored signature" does not mean "nothing recorded": an app
+            # that never has a model to install on this database (no models,
+            # or all routed elsewhere) never gets a signature and takes this
+            # branch on every run.  Unless the Evolution table does not
+            # exist yet, the raw sequence must not reach the record without
+            # being reduced by what is already recorded.
+            redefs = [x for x in g.nodes if x is not d.node and any(
+                dd.var == V and dd.kind != 'mutate'
+                for dd in rd.defs_of_node.get(x.id, []))]
+            exist_tests = [t for t in g.nodes if t.kind in ('test', 'operand')
+                           and ('has_model' in unparse(t.ast) or
+                                unparse(t.ast) == V)]
+            drop = {(t.id, 'F') for t in exist_tests}
+            starts = [s_ for s_, l in d.node.succ if l != 'exc']
+            reach = g.reachable(starts, avoid=redefs, follow_exc=False,
+                                drop_edges=drop)
+            guarded = exist_tests and any(g.guarded_by(d.node, t, 'F')
+                                          for t in exist_tests)
+            if rec.id in reach and not guarded:
+                ctx.finding(f, d.node.ast, 'for an app without a stored '
+                            'signature the whole sequence is recorded '
+                            'without consulting the Evolution table: an app '
+                            'that never gets a signature on this database '
+                            '(no models here) has its whole history recorded '
+                            'again by every run', key='fresh-app-rerecorded')
+            else:
+                ctx.ok(f, 'the recorded sequence is reduced by the labels '
+                       'already recorded (when the table exists)', d.node.ast)
             continue
         if isinstance(v, ast.Call) and call_name(v) == \
                 'get_unapplied_evolutions':
@@ -260,6 +288,20 @@ def r3_label_provenance(ctx):
                             'executed or executed without being recorded' %
                             V, key='labels-diverge')
             continue
+        if isinstance(v, ast.ListComp) and len(v.generators) == 1 and \
+                isinstance(v.generators[0].iter, ast.Name) and \
+                v.generators[0].iter.id == V and \
+                unparse(v.elt) == unparse(v.generators[0].target) and \
+                v.generators[0].ifs and all(
+                    isinstance(t, ast.Compare) and
+                    isinstance(t.ops[0], ast.NotIn)
+                    for t in v.generators[0].ifs):
+            flt = ' '.join(unparse(e) for t in v.generators[0].ifs
+                           for _, e in rd.origins(d.node, t.comparators[0]))
+            if 'get_applied_evolutions' in flt:
+                ctx.ok(f, 'the recorded labels are reduced by the labels '
+                       'already recorded', d.node.ast)
+                continue
         ctx.finding(f, d.node.ast, 'the recorded label list is bound from '
                     '%s, which is not a recognised source' % unparse(v)[:50])
     # ... and the batch builder, which decides independently what to execute,
